@@ -242,6 +242,55 @@ def check_toys_exact(rng, shard, backend, ntoys):
     shard.covered("toy_statistics", ts)
 
 
+def check_toys_exact_fixed_nuisance(rng, shard, backend, ntoys):
+    """One-bin model with a Poisson-constrained gamma that the CALLER holds fixed at a non-default value: the
+    statistic depends on n only and n ~ Pois(mu s + gamma0 b), so both tail probabilities are enumerable."""
+    import pyhf
+
+    s_, b_, d_ = round(rng.uniform(2.0, 5.0), 2), round(rng.uniform(3.0, 7.0), 2), round(rng.uniform(0.8, 1.5), 2)
+    model = pyhf.simplemodels.uncorrelated_background([s_], [b_], [d_])
+    g0 = round(rng.choice([0.7, 0.8, 1.25, 1.4]), 2)
+    init, fixed = [1.0, g0], [False, True]
+    mu = rng.choice([1.0, 1.5, 2.0])
+    n_obs = float(gen.poisson_draw(rng, g0 * b_ + 0.3 * s_))
+    data = [n_obs] + list(model.config.auxdata)
+    seed = rng.randrange(1 << 30)
+    seed_all(seed)
+    case = {"s": s_, "b": b_, "unc": d_, "gamma_fixed_at": g0, "n_obs": n_obs, "mu": mu, "ntoys": ntoys, "seed": seed, "backend": backend}
+    try:
+        res = pyhf.infer.hypotest(mu, data, model, init_pars=init, fixed_params=fixed, calctype="toybased", ntoys=ntoys, track_progress=False, return_tail_probs=True)
+    except Exception as e:
+        shard.violate("C14/toy-hypotest-raised", f"{type(e).__name__}: {str(e)[:200]}; backend={backend}", case, "toy_vs_exact")
+        return
+    tails = [float(to_np(x)) for x in res[1]]
+    beff = g0 * b_
+    q_obs = float(RS.counting_teststat("qtilde", mu, [n_obs], [s_], [beff], 0.0, 10.0)[0])
+    # The sampled auxiliary data differ from toy to toy; they cancel in the statistic only up to rounding, so a toy
+    # with n = n_obs lands within ~1e-15 of q_obs on either side: the tie mass may be counted or not.  The toy
+    # estimate must therefore lie between P(q > q_obs) and P(q >= q_obs), within binomial error.
+    p_sb = p_b = t_sb = t_b = 0.0
+    for n in range(int(beff + 10 * s_ + 60)):
+        q = float(RS.counting_teststat("qtilde", mu, [float(n)], [s_], [beff], 0.0, 10.0)[0])
+        if q >= q_obs - 1e-6:
+            p_sb += pois_pmf(n, mu * s_ + beff)
+            p_b += pois_pmf(n, beff)
+        if abs(q - q_obs) <= 1e-6:
+            t_sb += pois_pmf(n, mu * s_ + beff)
+            t_b += pois_pmf(n, beff)
+    bad = []
+    for label, got, exact, tie in (("CL_s+b", tails[0], p_sb, t_sb), ("CL_b", tails[1], p_b, t_b)):
+        window = 6 * math.sqrt(max(exact * (1 - exact), 1e-12) / ntoys) + 1.0 / ntoys
+        if not (exact - tie - window <= got <= exact + window):
+            bad.append(f"{label}: toy estimate {got:.4f}, exact tail between {exact - tie:.4f} (ties excluded) and {exact:.4f} (ties included), window {window:.4f}")
+    if bad:
+        shard.violate("C14/toy-vs-exact:fixed-nuisance", "; ".join(bad) + f"; s={s_} b={b_} gamma fixed at {g0} n_obs={n_obs} mu={mu} ntoys={ntoys} seed={seed}", case, "toy_vs_exact")
+    else:
+        shard.ok("toy_vs_exact", 2)
+        shard.covered("toy_masks", "nuisance fixed by the caller at a non-default value")
+        if 0.02 < p_sb < 0.98 and 0.02 < p_b < 0.98:
+            shard.nontrivial("toys-fixed", s_, b_, g0, n_obs, mu, backend)
+
+
 def check_toy_hypotheses(rng, shard, backend):
     """Monitor on make_pdf inside ToyCalculator.distributions: the two samples are drawn at the conditional
     best-fit parameters of mu_test and of mu=0 (mu=1 for q0)."""
@@ -252,6 +301,13 @@ def check_toy_hypotheses(rng, shard, backend):
     data = [float(gen.poisson_draw(rng, 50))] + list(model.config.auxdata)
     ts = rng.choice(["qtilde", "q0"])
     mu = 0.0 if ts == "q0" else rng.choice([0.5, 1.0, 2.0])
+    # half of the time the caller fixes the nuisance parameter at a non-default value
+    user_fixed = rng.random() < 0.5
+    init = list(model.config.suggested_init())
+    fixed = list(model.config.suggested_fixed())
+    if user_fixed:
+        init[1] = round(rng.uniform(0.7, 1.4), 2)
+        fixed[1] = True
     events = []
     orig_make = model.make_pdf
 
@@ -273,14 +329,15 @@ def check_toy_hypotheses(rng, shard, backend):
 
     model.make_pdf = make_pdf
     seed_all(rng.randrange(1 << 30))
-    calc = C.ToyCalculator(data, model, test_stat=ts, ntoys=4, track_progress=False)
+    calc = C.ToyCalculator(data, model, init_pars=init, fixed_params=fixed, test_stat=ts, ntoys=4, track_progress=False)
     n_before = len(events)
     sb, b = calc.distributions(mu)
     drawn = [e[1] for e in events[n_before:]][:2]
     model.make_pdf = orig_make
-    want_sig = [float(x) for x in to_np(pyhf.infer.mle.fixed_poi_fit(mu, data, model))]
-    want_bkg = [float(x) for x in to_np(pyhf.infer.mle.fixed_poi_fit(1.0 if ts == "q0" else 0.0, data, model))]
-    case = {"data": data, "mu": mu, "test_stat": ts, "backend": backend}
+    want_sig = [float(x) for x in to_np(pyhf.infer.mle.fixed_poi_fit(mu, data, model, init, None, fixed))]
+    want_bkg = [float(x) for x in to_np(pyhf.infer.mle.fixed_poi_fit(1.0 if ts == "q0" else 0.0, data, model, init, None, fixed))]
+    case = {"data": data, "mu": mu, "test_stat": ts, "backend": backend, "init_pars": init, "fixed_params": fixed}
+    shard.covered("toy_hypotheses_masks", "nuisance fixed by the caller" if user_fixed else "default")
     ok = len(drawn) == 2 and all(abs(a - b_) <= 1e-6 * (abs(b_) + 1) for a, b_ in zip(drawn[0], want_sig)) and all(abs(a - b_) <= 1e-6 * (abs(b_) + 1) for a, b_ in zip(drawn[1], want_bkg))
     nsb, nb_ = len(to_np(sb.samples)), len(to_np(b.samples))
     if not ok:
@@ -316,7 +373,9 @@ def run_shard(shard):
         check_sampling(rng, shard, p["backend"], 0)
     for k in range(p["n_toys"]):
         check_toys_exact(rng, shard, p["backend"], p["ntoys"])
-    for k in range(2):
+    if p["n_toys"]:
+        check_toys_exact_fixed_nuisance(rng, shard, p["backend"], min(p["ntoys"], 800))
+    for k in range(4):
         check_toy_hypotheses(rng, shard, p["backend"])
     if shard.index == 0:
         shard.sample({"empirical": {"samples": [0.0, 1.0, 1.0, 3.0], "value": 1.0, "exact_pvalue": 0.75},
